@@ -62,3 +62,10 @@ package elastic
 //@                       && asptr(s.elastic.client.Transport, http.Transport).DisableKeepAlives -> loop 0
 //@   loop 0 row apply: [call o(s)] -> continue
 //@   loop 0 row done:  [] when ret == s -> exit
+
+// C14: the JSON form of a result is exactly what encoding/json produces for a copy of the record (all tagged fields,
+// library escaping), with no post-processing
+//@ func (*ScanResult).MarshalJSON
+//@   props C14
+//@   observe json.Marshal
+//@   entry row marshal: [call json.Marshal(bind_x) as (b, e)] when ret0 == b && ret1 == e -> exit
